@@ -457,6 +457,24 @@ def coqchk(pid):
             "detail": None if ok else out[-1500:], "seconds": round(time.time() - t0)}
 
 
+def anchors_changed(pid):
+    """anchored source files of the property whose content differs from anchors.json (written by tools/anchors.py --update
+    at the last commit to /repo). Missing anchors.json: nothing is reported."""
+    p = os.path.join(VERIF, "anchors.json")
+    if not os.path.exists(p):
+        return []
+    old = json.load(open(p)).get(pid, {})
+    out = []
+    for f, h in sorted(old.items()):
+        try:
+            cur = hashlib.sha256(open(os.path.join(REPO, f), "rb").read()).hexdigest()[:16]
+        except OSError:
+            cur = None
+        if cur != h:
+            out.append(f)
+    return out
+
+
 def rng_for(seed, *salt):
     h = hashlib.sha256(("%d|" % seed + "|".join(str(s) for s in salt)).encode()).digest()
     return random.Random(int.from_bytes(h[:8], "big"))
